@@ -52,13 +52,23 @@
 
   `pdsh -w` and a comma-word whose parse fails         cli_drops_failed_word (witness of the    `b,a[1`
    WITHOUT a diagnostic (open finding                   open finding: the word is left out,
-   F15-CLI-WORD-DROPPED)                                pdsh goes on)
+   F15-CLI-WORD-DROPPED; FIXED in /repo d1c94df)        pdsh goes on -- opt.c before d1c94df)
+  the same in the REPAIRED opt.c (= /repo HEAD;        cliTargetsR_agrees (EVERY argument text, every
+   model Hostlist/CliRefuse.lean, driver op `clir`,     variant: targets = those of the code as found;
+   compared with pdsh verbatim incl. the quoted word)   a refused word yields nothing on its own),
+                                                        cli_refuses_failed_word (witness `b,a[1`)
+  STATE CARRIED between words / brackets / calls        not a notion of the model (`create` is a function of
+   (errno tested but never cleared, the previous        the text: create_iff_classify / C01.create_text hold
+   bracket's range table, the first element's width)    whatever was parsed before); exercised on the real
+                                                        code: every pinned text after each poisoning word
+                                                        and in the call after a poisoning call (`sprobe`)
 
   NOT PROVED: the CPU / memory ceilings of the compiled code and the absence of out-of-bounds
   accesses in the C text itself (pointer arithmetic inside the strdup'ed copy) are observed by the
   correspondence (ASan/UBSan, per-call limits), the model works on lists; glibc `strtoul`/`snprintf`
   are modelled.  (`Spec.classify` ↔ `create` for whole texts IS proved now: `create_iff_classify`.)
 -/
+import PdshVerif.Hostlist.CliRefuse
 import PdshVerif.Hostlist.LemmasParse
 import PdshVerif.Hostlist.LemmasCreate
 import PdshVerif.Hostlist.LemmasRepaired
@@ -500,6 +510,23 @@ theorem cli_drops_failed_word :
     Spec.balanced 0 "b,a[1".toList = false ∧
     (match cliTargets Cfg.repaired "b,a[1".toList with
       | .ok (some h) => some h.hosts | _ => none) = some ["b".toList] := by
+  decide
+
+/-- THE REPAIRED opt.c (d1c94df = /repo HEAD; model: Hostlist/CliRefuse.lean `cliTargetsR`, the driver's
+    `clir` op, compared with `pdsh -Q -w` verbatim incl. the quoted word) AGAINST THE CODE AS FOUND, for
+    EVERY argument text and every variant of hostlist.c: (1) when the repaired `-w` path arrives at a
+    working collective it is the one `cliTargets` arrives at -- so C01.cli_text / cli_targets speak about
+    /repo HEAD too; (2) when it ends in `invalid host expression "w"`, the quoted word on its own yields
+    nothing: `hostlist_create w` is NULL without a diagnostic (unbalanced brackets, > MAX_RANGES ranges) or
+    an empty list -- an argument is never refused for a word that names a host. -/
+theorem cliTargetsR_agrees (cfg : Cfg) (arg : Str) :
+    (∀ h, cliTargetsR cfg arg = .targets h → cliTargets cfg arg = .ok (some h)) ∧
+    (∀ w, cliTargetsR cfg arg = .refused w → YieldsNothing cfg w) :=
+  cliTargetsR_spec cfg arg
+
+/-- named witness (the text of `cli_drops_failed_word`): the repaired path refuses `b,a[1`, quoting `a[1` -/
+theorem cli_refuses_failed_word :
+    cliTargetsR Cfg.repaired "b,a[1".toList = .refused "a[1".toList := by
   decide
 
 /-! ## limits and bounds that hold in EVERY variant, for every text -/
